@@ -29,6 +29,9 @@ type M struct {
 	K   int    `json:"k"`
 	Pat string `json:"p,omitempty"`
 	Not bool   `json:"not,omitempty"`
+	// Or (only with Not): the 'not' matcher holds a second matcher set - not(this OR Or);
+	// expressible in JSON only
+	Or *M `json:"or,omitempty"`
 }
 
 type R struct {
@@ -49,6 +52,21 @@ type Scn struct {
 }
 
 func decM(m M, b []byte) string {
+	if m.Not && m.Or != nil {
+		// MatchNot evaluates its sets in order: an undecided set leaves the whole matcher
+		// undecided, a matching set makes it 'no', none matching makes it 'yes'
+		in := m
+		in.Not, in.Or = false, nil
+		for _, inner := range []M{in, *m.Or} {
+			switch decM(inner, b) {
+			case "more":
+				return "more"
+			case "yes":
+				return "no"
+			}
+		}
+		return "yes"
+	}
 	if len(b) < m.K {
 		return "more"
 	}
@@ -108,15 +126,17 @@ var (
 
 func not(m M) M { m.Not = true; return m }
 
+func notOr(a, b M) M { a.Not = true; a.Or = &b; return a }
+
 func matcherMenu(full bool) [][][]M {
 	one := func(m M) [][]M { return [][]M{{m}} }
 	menu := [][][]M{
-		nil, one(ma1), one(mab), one(mx2), one(mN), one(maab), one(not(ma1)), one(mb1),
+		nil, one(ma1), one(mab), one(mx2), one(mN), one(maab), one(not(ma1)), one(mb1), one(notOr(ma1, mab)),
 	}
 	if full {
 		menu = append(menu,
 			one(mA), one(maa), one(mx3), one(not(mab)), one(mx1),
-			[][]M{{mx2, not(mab)}}, [][]M{{mx1, not(ma1)}},
+			[][]M{{mx2, not(mab)}}, [][]M{{mx1, not(ma1)}}, one(notOr(maa, mb1)), one(notOr(mb1, maab)),
 			[][]M{{ma1}, {mab}}, [][]M{{mab}, {ma1}}, [][]M{{maab}, {mb1}}, [][]M{{mN}, {mx2}},
 		)
 	}
@@ -234,7 +254,11 @@ func scenarios(tier string, yield func(any) bool) {
 func matcherJSON(m M, id, mode string) (string, json.RawMessage) {
 	need := map[string]any{"id": id, "k": m.K, "pat": m.Pat, "mode": mode}
 	if m.Not {
-		return "not", hm.J([]map[string]any{{"h_need": need}})
+		sets := []map[string]any{{"h_need": need}}
+		if m.Or != nil {
+			sets = append(sets, map[string]any{"h_need": map[string]any{"id": id + "|", "k": m.Or.K, "pat": m.Or.Pat, "mode": mode}})
+		}
+		return "not", hm.J(sets)
 	}
 	return "h_need", hm.J(need)
 }
@@ -436,7 +460,10 @@ func (w *walker) list(rs []R, prefix string, top bool) string {
 				w.x.Fail("matcher-of-finished-route", "matcher %s evaluated after route %d already ran; %s", e.ID, f.p, w.ctx())
 			}
 			m := rs[ri].Sets[si][mi]
-			m.Not = false
+			if strings.HasSuffix(e.ID, "|") && m.Or != nil {
+				m = *m.Or // the matcher of the 'not' matcher's second set
+			}
+			m.Not, m.Or = false, nil
 			if want := decM(m, e.Visible); want != e.Verdict {
 				w.x.Fail("harness-matcher-verdict", "matcher %s on %q said %s, reference %s; %s", e.ID, e.Visible, e.Verdict, want, w.ctx())
 			}
